@@ -21,3 +21,4 @@ import RenetVerif.Lemmas.SrcEquiv.NcConnToken
 import RenetVerif.Lemmas.SrcEquiv.Conn
 import RenetVerif.Lemmas.SrcEquiv.ConnSend
 import RenetVerif.Lemmas.SrcEquiv.ConnRecv
+import RenetVerif.Lemmas.SrcEquiv.Server
